@@ -409,8 +409,12 @@ def smtlibscript_from_formula(formula: FNode, logic: Optional[Union[str, int, Lo
 
     # Declare all types
     types = get_env().typeso.get_types(formula, custom_only=True)
+    declared_sorts = set()
     for type_ in types:
-        script.add(name=smtcmd.DECLARE_SORT, args=[type_.decl])
+        # A parametric sort used at several instances is declared once
+        if type_.decl not in declared_sorts:
+            declared_sorts.add(type_.decl)
+            script.add(name=smtcmd.DECLARE_SORT, args=[type_.decl])
 
     deps = formula.get_free_variables()
     # Declare all variables
